@@ -19,6 +19,20 @@ PROPS = {
              "the line protocol; u64 arithmetic of rustc for the values compared. 32-bit usize is covered by the "
              "theorems (bits ≥ 16) but has no tie (cannot be built here).",
     ),
+    "C09": dict(
+        module="Hb.Props.C09",
+        ties=[("scen", "iter", 300, 10000), ("scen", "mixed", 200, 6000), ("scen", "saturate", 40, 2000)],
+        backends=["sse2", "portable"],
+        design="§7 C09",
+        text="Lean theorems: in every table state satisfying the structural invariant (proved preserved elsewhere; "
+             "validated on every state of every run) RawIter::next yields exactly the full buckets once, fold = "
+             "repeated next from any prefix, size_hint exact at every step, fused, default empty — unbounded in table "
+             "size and occupancy. Tie: at the states of generated histories every public map iterator kind is walked "
+             "on the real code with next/clone/fold switched at every prefix length and compared to the model.",
+        note="Trusted: Lean kernel, axioms propext/Classical.choice/Quot.sound; harness + dump hook + protocol. The "
+             "public wrappers (Iter, Keys, Values, IterMut, ValuesMut, IntoIter, Drain) are observed through the "
+             "correspondence only; their Lean model is the shared RawIter. Set/table wrappers: via C06/C07 ties.",
+    ),
 }
 
 
